@@ -21,7 +21,7 @@ MIXES = {
     "MixD": ["dispatchCurly", "options", "route", "removeRoute"],
     "MixE": ["serveCurly", "serveJsr", "dispatchCurly", "remove", "route"],
 }
-PAIRS = [["serveCurly", "remove"], ["dispatchCurly", "route"], ["serveCurly", "add"], ["dispatchCurly", "removeRoute"],
+PAIRS = [["remove", "remove"], ["serveCurly", "remove"], ["dispatchCurly", "route"], ["serveCurly", "add"], ["dispatchCurly", "removeRoute"],
          ["serveCurly", "handle"], ["remove", "handle"], ["serveCurly", "route"], ["add", "remove"]]
 
 
@@ -71,13 +71,14 @@ def check(run, replay=None):
     rounds, ops, servers = {"quick": (25, 12, 4), "thorough": (400, 20, 8)}[tier]
     events = []
     racelog = run.path("racelog")
-    plan_race = {"rounds": rounds, "servers": servers, "ops": ops, "pairs": PAIRS}
+    duo = {"quick": 15, "thorough": 200}[tier]
+    plan_race = {"rounds": rounds, "servers": servers, "ops": ops, "pairs": PAIRS, "duo": duo}
     vh_race = build_harness(run, race=True)
     path = run_harness(run, vh_race, "conc", plan_race, "conc-race", seed=run.seed * 1000 + 1,
                        env_extra={"GORACE": "log_path=%s halt_on_error=0 exitcode=0" % racelog}, timeout=3000)
     events += read_ndjson(path)
     vh = build_harness(run)
-    path = run_harness(run, vh, "conc", {"rounds": rounds * 2, "servers": servers * 2, "ops": ops, "pairs": []}, "conc-plain",
+    path = run_harness(run, vh, "conc", {"rounds": rounds * 2, "servers": servers * 2, "ops": ops, "pairs": [], "duo": duo * 2}, "conc-plain",
                        seed=run.seed * 1000 + 2, timeout=3000)
     events += read_ndjson(path)
     reports = race_reports(racelog)
@@ -98,7 +99,8 @@ def check(run, replay=None):
         "rule": "rounds = seeded histories of Add / Remove / Route / RemoveRoute performed by one mutator goroutine while 4-16 server "
                 "goroutines cycle over 12 probe URLs through ServeHTTP and Dispatch, both routers; half of the rounds (and 8 head-to-head "
                 "pairs of operations TLC found conflicting in the legacy model, 30 repetitions each) run in a -race build whose reports "
-                "are collected. Non-trivial = responses during which at least one mutation was in flight (window of >= 2 states), "
+                "are collected; further rounds have TWO mutator goroutines on disjoint services (no window rule; when both are done the "
+                "container must answer like a fresh one holding what both histories leave behind). Non-trivial = responses during which at least one mutation was in flight (window of >= 2 states), "
                 "counted by the trace spec; 'ambiguous' counts those with >= 2 different candidate answers.",
         "samples": samples,
         "traces_validated_against_impl": run.cov.get("rounds", 0),
